@@ -63,8 +63,8 @@ int main(void) {
             if (dead) continue;
             int off = atoi(a1) % 64;
             guard_t nr = guard_alloc(memsz + 64, 0);
-            /* keep 4-byte alignment of the header fields (the library stores ints): offsets are multiples of 4 */
-            unsigned char *nm = nr.p + ((64 - off) & ~3);
+            /* any alignment: the image means the same wherever it is mapped (a region given by the user need not be aligned either) */
+            unsigned char *nm = nr.p + (64 - off);
             memcpy(nm, mem, memsz);
             memset(mem, 0xDD, memsz);
             qhasharr_free(t); guard_free(region);
